@@ -826,6 +826,92 @@ Proof.
 Qed.
 End Hrr3.
 
+(* ---- eri_channel: horizontal recursion c -> d for every a, then a -> b for every (c, d) ---- *)
+Section Channel.
+Variables (La Lc lb ld : nat) (abx aby abz cdx cdy cdz : F) (comps3 comps4 : list comp)
+          (getc : nat -> nat -> nat -> nat -> nat -> nat -> F).
+
+(* the abstract value: HRR on (a, b) of HRR on (c, d) of the contracted [a0|c0] integrals *)
+Definition chan_val (cx cy cz dx dy dz bx by_ bz ax ay az : nat) : F :=
+  H3g abx aby abz (fun ax' ay' az' =>
+    H3g cdx cdy cdz (fun cx' cy' cz' => getc cx' cy' cz' ax' ay' az') dx dy dz cx cy cz)
+    bx by_ bz ax ay az.
+
+Lemma H3g_local ex ey ez (T T' : nat -> nat -> nat -> F) bx by_ bz ax ay az :
+  (forall x y z, ax <= x <= ax + bx -> ay <= y <= ay + by_ -> az <= z <= az + bz -> T x y z = T' x y z) ->
+  H3g ex ey ez T bx by_ bz ax ay az = H3g ex ey ez T' bx by_ bz ax ay az.
+Proof.
+  intros H. unfold H3g.
+  apply (Hf_local K). intros jz Hjz. apply (Hf_local K). intros jy Hjy.
+  apply (Hf_local K). intros jx Hjx. now apply H.
+Qed.
+
+Theorem eri_channel_entry i3 i4 bx by_ bz ax ay az :
+  i3 < length comps3 -> i4 < length comps4 ->
+  let c3 := nth i3 comps3 (0, 0, 0)%nat in let c4 := nth i4 comps4 (0, 0, 0)%nat in
+  let cx := fst (fst c3) in let cy := snd (fst c3) in let cz := snd c3 in
+  let dx := fst (fst c4) in let dy := snd (fst c4) in let dz := snd c4 in
+  dx <= ld -> dy <= ld -> dz <= ld -> cx + dx <= Lc -> cy + dy <= Lc -> cz + dz <= Lc ->
+  bx <= lb -> by_ <= lb -> bz <= lb -> ax + bx <= La -> ay + by_ <= La -> az + bz <= La ->
+  cget K (nth bz (nth by_ (nth bx
+     (nth i4 (nth i3 (eri_channel K La Lc lb ld abx aby abz cdx cdy cdz comps3 comps4 getc) []) [])
+     []) []) []) ax ay az
+  = chan_val cx cy cz dx dy dz bx by_ bz ax ay az.
+Proof.
+  intros Hi3 Hi4 c3 c4 cx cy cz dx dy dz Hdx Hdy Hdz Hcx Hcy Hcz Hbx Hby Hbz Hax Hay Haz.
+  unfold eri_channel. cbv zeta.
+  rewrite (nth_map_lt (A:=comp) _ _ i3 [] (0, 0, 0)%nat) by exact Hi3.
+  rewrite (nth_map_lt (A:=comp) _ _ i4 [] (0, 0, 0)%nat) by exact Hi4.
+  fold c3 c4. fold cx cy cz dx dy dz.
+  rewrite hrr3_entry by assumption.
+  unfold chan_val. apply H3g_local. intros x y z Hx Hy Hz.
+  rewrite cget_mk3 by lia.
+  rewrite nth_mk by lia. rewrite nth_mk by lia. rewrite nth_mk by lia.
+  rewrite hrr3_entry by assumption.
+  apply H3g_local. intros x' y' z' Hx' Hy' Hz'.
+  rewrite cget_mk3 by lia. reflexivity.
+Qed.
+End Channel.
+
+(* ---- eri_block: every entry of the block in terms of the contracted [a0|c0] integrals ---- *)
+Definition compsum (c : comp) : nat := (fst (fst c) + snd (fst c) + snd c)%nat.
+
+Definition eri_prims (s1 s2 s3 s4 : shell F) : list (list (list (list (ecube (F:=F))))) :=
+  let L := (s_l s1 + s_l s2 + s_l s3 + s_l s4)%nat in let Lc := (s_l s3 + s_l s4)%nat in
+  map (fun alpha => map (fun beta => map (fun gamma => map (fun delta =>
+      eri_prim K L Lc (coord3 s1) (coord3 s2) (coord3 s3) (coord3 s4) alpha beta gamma delta)
+      (s_exps s4)) (s_exps s3)) (s_exps s2)) (s_exps s1).
+
+Theorem eri_block_entry (s1 s2 s3 s4 : shell F) m1 i1 m2 i2 m3 i3 m4 i4 :
+  m1 < nseg s1 -> m2 < nseg s2 -> m3 < nseg s3 -> m4 < nseg s4 ->
+  i1 < length (comps_of s1) -> i2 < length (comps_of s2) ->
+  i3 < length (comps_of s3) -> i4 < length (comps_of s4) ->
+  let c1 := nth i1 (comps_of s1) (0, 0, 0)%nat in let c2 := nth i2 (comps_of s2) (0, 0, 0)%nat in
+  let c3 := nth i3 (comps_of s3) (0, 0, 0)%nat in let c4 := nth i4 (comps_of s4) (0, 0, 0)%nat in
+  compsum c1 <= s_l s1 -> compsum c2 <= s_l s2 -> compsum c3 <= s_l s3 -> compsum c4 <= s_l s4 ->
+  nth i4 (nth m4 (nth i3 (nth m3 (nth i2 (nth m2 (nth i1 (nth m1 (eri_block K s1 s2 s3 s4)
+    []) []) []) []) []) []) []) 0
+  = chan_val (s_x s1 - s_x s2) (s_y s1 - s_y s2) (s_z s1 - s_z s2)
+             (s_x s3 - s_x s4) (s_y s3 - s_y s4) (s_z s3 - s_z s4)
+             (eri_contract K (wts K s1) (wts K s2) (wts K s3) (wts K s4) (eri_prims s1 s2 s3 s4) m1 m2 m3 m4)
+             (fst (fst c3)) (snd (fst c3)) (snd c3) (fst (fst c4)) (snd (fst c4)) (snd c4)
+             (fst (fst c2)) (snd (fst c2)) (snd c2) (fst (fst c1)) (snd (fst c1)) (snd c1)
+    * inv_sqrt_df K c1 * inv_sqrt_df K c2 * inv_sqrt_df K c3 * inv_sqrt_df K c4.
+Proof.
+  intros Hm1 Hm2 Hm3 Hm4 Hi1 Hi2 Hi3 Hi4 c1 c2 c3 c4 Hc1 Hc2 Hc3 Hc4.
+  unfold compsum in *.
+  unfold eri_block. cbv zeta.
+  rewrite nth_mk by assumption. rewrite nth_mk by assumption. rewrite nth_mk by assumption.
+  rewrite nth_mk by assumption. rewrite nth_mk by assumption. rewrite nth_mk by assumption.
+  rewrite nth_mk by assumption. rewrite nth_mk by assumption.
+  rewrite nth_mk by assumption. rewrite nth_mk by assumption. rewrite nth_mk by assumption.
+  rewrite nth_mk by assumption.
+  rewrite !(nth_map_lt (A:=comp) (inv_sqrt_df K) _ _ 0 (0, 0, 0)%nat) by assumption.
+  fold c1 c2 c3 c4.
+  rewrite eri_channel_entry by (try assumption; fold c3 c4; lia).
+  reflexivity.
+Qed.
+
 (* ---- the all-s closed form (_two_elec_int.py:8-145) is the general path with L = 0 ---- *)
 Definition eri_pref (A B C D : F * F * F) (alpha beta gamma delta : F) : F :=
   let p := alpha + beta in let q := gamma + delta in
